@@ -253,7 +253,12 @@ def gen_dc(rng, depth=1, base=None, tag=None):
         required = rng.random() < 0.6
         dkey = None
         if not required and rng.random() < 0.7:
-            dkey = "none" if rng.random() < 0.5 else "valid"
+            # declared defaults are trusted by the library, so the harness declares conforming ones:
+            # None only where None conforms, otherwise a fixed valid value (or no default at all)
+            if fs[0] == "opt" or fs == ("leaf", "NoneType"):
+                dkey = "none"
+            elif valid_value(fs) is not None:
+                dkey = "valid"
         fields.append((name, fs, required, dkey))
     return ("dc", base, tuple(fields), tag or ("t%d" % rng.randrange(10 ** 6)))
 
